@@ -22,13 +22,21 @@ struct Case {
     delta: f64,
     t: f64,
     same: bool,
+    /// objective of the candidate if it is not cur + delta (signed zeros)
+    cand: Option<f64>,
+    /// the acceptance runs in an inner scope with its own temperature below an outer, very different one
+    scoped: bool,
 }
 impl Case {
     fn json(&self) -> Value {
-        json!({"cur": self.cur, "delta": self.delta, "t": self.t, "same": self.same})
+        json!({"cur": format!("{:016x}", self.cur.to_bits()), "delta": self.delta, "t": self.t, "same": self.same, "cand": self.cand.map(|c| format!("{:016x}", c.to_bits())), "scoped": self.scoped})
     }
     fn from(v: &Value) -> Option<Case> {
-        Some(Case { cur: v["cur"].as_f64().unwrap_or(20.0), delta: v["delta"].as_f64()?, t: v["t"].as_f64()?, same: v["same"].as_bool().unwrap_or(false) })
+        let hex = |x: &Value| x.as_str().and_then(|s| u64::from_str_radix(s, 16).ok()).map(f64::from_bits);
+        Some(Case { cur: hex(&v["cur"]).unwrap_or(20.0), delta: v["delta"].as_f64()?, t: v["t"].as_f64()?, same: v["same"].as_bool().unwrap_or(false), cand: hex(&v["cand"]), scoped: v["scoped"].as_bool().unwrap_or(false) })
+    }
+    fn cand_value(&self) -> f64 {
+        self.cand.unwrap_or(self.cur + self.delta)
     }
     fn cand_tag(&self) -> u32 {
         if self.same {
@@ -43,21 +51,32 @@ fn cases() -> Vec<Case> {
     let mut v = vec![];
     for d in DELTAS {
         for t in TEMPS {
-            v.push(Case { cur: 20.0, delta: d, t, same: false });
+            v.push(Case { cur: 20.0, delta: d, t, same: false, cand: None, scoped: false });
         }
         // temperature exactly zero (alpha = 0 cooling reaches it after one pass)
-        v.push(Case { cur: 20.0, delta: d, t: 0.0, same: false });
+        v.push(Case { cur: 20.0, delta: d, t: 0.0, same: false, cand: None, scoped: false });
     }
     // margins of a few ulps at temperatures far below them
     for d in [-1e-15, 0.0, 2.220446049250313e-16, 1e-15, 1e-12] {
         for t in [0.0, 1e-300, 1e-17, 1e-12] {
-            v.push(Case { cur: 1.0, delta: d, t, same: false });
+            v.push(Case { cur: 1.0, delta: d, t, same: false, cand: None, scoped: false });
         }
     }
     // the candidate has the encoding of the current solution but another objective value
     for d in [-1.0, 0.5, 1.0, 10.0] {
         for t in [0.1, 1.0, 1e9] {
-            v.push(Case { cur: 20.0, delta: d, t, same: true });
+            v.push(Case { cur: 20.0, delta: d, t, same: true, cand: None, scoped: false });
+        }
+    }
+    // zeros of different sign are equally good: the candidate always survives, at every temperature
+    for t in [0.0, 1e-300, 1.0, 1e9] {
+        v.push(Case { cur: -0.0, delta: 0.0, t, same: false, cand: Some(0.0), scoped: false });
+        v.push(Case { cur: 0.0, delta: 0.0, t, same: false, cand: Some(-0.0), scoped: false });
+    }
+    // the acceptance in a scope of its own: its temperature is the one of that scope
+    for d in [-1.0, 0.0, 0.5, 10.0] {
+        for t in [1e-9, 1.0, 1e9] {
+            v.push(Case { cur: 20.0, delta: d, t, same: false, cand: None, scoped: true });
         }
     }
     v
@@ -67,18 +86,24 @@ type Obs = (Result<(), String>, Vec<Vec<(u32, Option<f64>)>>);
 
 fn run_accept(c: Case) -> Obs {
     // stack (bottom first): sentinel, current (tag 1), candidate (tag 2 or 1, on top)
-    let cand = c.cur + c.delta;
+    let cand = c.cand_value();
     let mut st = state_with::<TagP>(vec![tpop(&[(9, 99.0)]), tpop(&[(1, c.cur)]), tpop(&[(c.cand_tag(), cand)])]);
     let t = c.t;
-    let c = ExponentialAnnealingAcceptance::new::<TagP>(t);
-    let r = run_component(c.as_ref(), &TagP, &mut st).map_err(|e| format!("{:#}", e));
+    let comp = ExponentialAnnealingAcceptance::new::<TagP>(t);
+    let r = if c.scoped {
+        // an outer temperature at the other extreme; the component initialises its own in the inner scope
+        st.insert(Temperature(if t <= 1.0 { 1e12 } else { 1e-12 }));
+        st.with_inner_state(|inner| run_component(comp.as_ref(), &TagP, inner)).map(|_| ()).map_err(|e| format!("{:#}", e))
+    } else {
+        run_component(comp.as_ref(), &TagP, &mut st).map_err(|e| format!("{:#}", e))
+    };
     (r, pops_of(&st).iter().map(|p| rd_tpop(p)).collect())
 }
 
 /// words to sweep: evenly spaced grid plus the neighbours of the exact threshold
 /// the difference of the objective values as the doubles actually stored (20 + 1e-9 - 20 != 1e-9)
 fn eff(c: Case) -> f64 {
-    (c.cur + c.delta) - c.cur
+    c.cand_value() - c.cur
 }
 fn prob(c: Case) -> f64 {
     let d = eff(c);
@@ -118,8 +143,8 @@ fn check_accept(c: Case, word: Option<u64>, out: &Outcome<Obs>) -> Option<(Strin
     } else {
         "worse"
     };
-    let head = format!("C17 acceptance candidate={}{}{}", dclass, if c.t == 0.0 { " T=0" } else { "" }, if c.same { " same-encoding" } else { "" });
-    let ctx = |w: String| format!("f(current)={:?}, f(candidate)={:?}, T={:?}, candidate encoding {} the current one, acceptance word {:?}: {}", c.cur, c.cur + c.delta, c.t, if c.same { "equals" } else { "differs from" }, word, w);
+    let head = format!("C17 acceptance candidate={}{}{}{}", dclass, if c.t == 0.0 { " T=0" } else { "" }, if c.same { " same-encoding" } else { "" }, if c.scoped { " in-scope" } else { "" });
+    let ctx = |w: String| format!("f(current)={:?}, f(candidate)={:?}, T={:?}{}, candidate encoding {} the current one, acceptance word {:?}: {}", c.cur, c.cand_value(), c.t, if c.scoped { " (in an inner scope; the outer scope holds another temperature)" } else { "" }, if c.same { "equals" } else { "differs from" }, word, w);
     let (r, pops) = match out {
         Outcome::Done(o) => o,
         Outcome::Panic(m) => return Some((format!("{} panic", head), ctx(format!("panicked: {}", m.chars().take(200).collect::<String>())))),
@@ -132,15 +157,17 @@ fn check_accept(c: Case, word: Option<u64>, out: &Outcome<Obs>) -> Option<(Strin
         return Some((format!("{} stack-effect", head), ctx(format!("stack (top first) {:?}: the two single-individual populations must be reduced to one holding the survivor", pops))));
     }
     let survivor = pops[0][0];
-    let cand = (c.cand_tag(), Some(c.cur + c.delta));
+    let cand = (c.cand_tag(), Some(c.cand_value()));
     let cur = (1u32, Some(c.cur));
-    if survivor != cand && survivor != cur {
+    // (bitwise: zeros of different sign are different survivors)
+    let same = |a: (u32, Option<f64>), b: (u32, Option<f64>)| a.0 == b.0 && a.1.map(f64::to_bits) == b.1.map(f64::to_bits);
+    if !same(survivor, cand) && !same(survivor, cur) {
         return Some((format!("{} survivor-is-neither", head), ctx(format!("survivor {:?} is neither the current solution {:?} nor the candidate {:?}", survivor, cur, cand))));
     }
-    if cand == cur {
+    if same(cand, cur) {
         return None;
     }
-    let accepted = survivor == cand;
+    let accepted = same(survivor, cand);
     // a better-or-equal candidate must always survive; a decision taken without any generator word is
     // deterministic and must have probability 0 or 1; with a probability below 2^-60 (above 1-2^-60) no
     // word other than the extreme ones may accept (reject). Everything in between is decided as a
@@ -179,12 +206,12 @@ fn measure(c: Case, grid: usize, seed: u64, mut each: impl FnMut(&[u32], &Outcom
     let cfg = Cfg::prefix(&words, 1, seed);
     let body = || run_accept(c);
     let (mut acc, mut tot) = (0u64, 0u64);
-    let cand = (c.cand_tag(), Some(c.cur + c.delta));
+    let cand = (c.cand_tag(), Some(c.cand_value()));
     tape::explore(&cfg, &body, &mut |prefix, out, log| {
         if let Outcome::Done((Ok(()), pops)) = out {
             if prefix.len() == 1 && (prefix[0] as usize) <= grid {
                 tot += 1;
-                if pops.first().and_then(|p| p.first()).cloned() == Some(cand) {
+                if pops.first().and_then(|p| p.first()).map(|s| s.0 == cand.0 && s.1.map(f64::to_bits) == cand.1.map(f64::to_bits)) == Some(true) {
                     acc += 1;
                 }
             }
@@ -202,8 +229,8 @@ fn measure_verdict(c: Case, acc: u64, tot: u64, grid: usize) -> Option<(String, 
     let share = acc as f64 / tot as f64;
     if (share - p).abs() > 2.0 / grid as f64 {
         return Some((
-            format!("C17 acceptance candidate=worse{}{} {}", if c.t == 0.0 { " T=0" } else { "" }, if c.same { " same-encoding" } else { "" }, if share > p { "accepted-too-often" } else { "accepted-too-rarely" }),
-            format!("f(current)={:?}, f(candidate)={:?}, T={:?}: the candidate survives for {} of {} evenly spaced acceptance words ({}), exp(-delta/T) = {:?}", c.cur, c.cur + c.delta, c.t, acc, tot, share, p),
+            format!("C17 acceptance candidate=worse{}{}{} {}", if c.t == 0.0 { " T=0" } else { "" }, if c.same { " same-encoding" } else { "" }, if c.scoped { " in-scope" } else { "" }, if share > p { "accepted-too-often" } else { "accepted-too-rarely" }),
+            format!("f(current)={:?}, f(candidate)={:?}, T={:?}: the candidate survives for {} of {} evenly spaced acceptance words ({}), exp(-delta/T) = {:?}", c.cur, c.cand_value(), c.t, acc, tot, share, p),
         ));
     }
     None
@@ -235,7 +262,7 @@ fn check_cooling(alpha: f64, t0: f64, k: usize) -> Option<(String, String)> {
 
 pub fn run(rep: &mut Report) {
     let thorough = rep.tier == Tier::Thorough;
-    rep.alpha("ExponentialAnnealingAcceptance on [sentinel, current, candidate(top)]: f(current)=20, delta = f(candidate) - f(current) in {-10,-1,-1e-9,0,1e-9,0.5,1,10} x T in {0,1e-9,0.1,1,10,1e9}; f(current)=1 with delta in {-1e-15,0,1ulp,1e-15,1e-12} x T in {0,1e-300,1e-17,1e-12}; candidates with the encoding of the current solution but another objective; each x acceptance word over an evenly spaced grid, 0, MAX and the words around the exact threshold exp(-delta/T)*2^53");
+    rep.alpha("ExponentialAnnealingAcceptance on [sentinel, current, candidate(top)]: f(current)=20, delta = f(candidate) - f(current) in {-10,-1,-1e-9,0,1e-9,0.5,1,10} x T in {0,1e-9,0.1,1,10,1e9}; f(current)=1 with delta in {-1e-15,0,1ulp,1e-15,1e-12} x T in {0,1e-300,1e-17,1e-12}; candidates with the encoding of the current solution but another objective; zeros of different sign as current / candidate; the acceptance in an inner scope below an outer temperature at the other extreme; each x acceptance word over an evenly spaced grid, 0, MAX and the words around the exact threshold exp(-delta/T)*2^53");
     rep.alpha("GeometricCooling on Temperature: alpha in {0,0.5,0.9,0.99} x T0 in {1e-3,1,100} x 1..5 executions");
     rep.assume("the candidate is the top population, as produced by the SA template (copy of the current solution, perturbed)");
     rep.assume("the acceptance probability is decided as the share of evenly spaced acceptance words (first generator word drawn) for which the candidate survives, within 2/grid of exp(-delta/T); decisions taken without any draw must have probability 0 or 1; with exp(-delta/T) below 2^-60 no non-extreme word may accept");
@@ -264,9 +291,9 @@ pub fn run(rep: &mut Report) {
                 sub.violate(s, d, json!({"case": c.json(), "tape": [], "grid": grid, "seed": seed, "measure": true}));
             }
             if tot > 0 {
-                sub.outcome(format!("cur={} delta={} T={} same={}: accepted {} of {} grid words", c.cur, c.delta, c.t, c.same, acc, tot));
+                sub.outcome(format!("cur={:?} delta={} T={} same={} scoped={}: accepted {} of {} grid words", c.cur, c.delta, c.t, c.same, c.scoped, acc, tot));
             } else {
-                sub.outcome(format!("cur={} delta={} T={} same={}: no word drawn", c.cur, c.delta, c.t, c.same));
+                sub.outcome(format!("cur={:?} delta={} T={} same={} scoped={}: no word drawn", c.cur, c.delta, c.t, c.same, c.scoped));
             }
             sub
         })
